@@ -430,10 +430,48 @@ func checkLookupEnvPresence(c *report.Ctx) {
 // checkOptionalReservedStores: in storeNonCredentialEnvironmentVariablesFromInit a reserved platform variable that
 // is written only when its source is non-empty is guarded by a test of that very source.
 func checkOptionalReservedStores(c *report.Ctx) {
-	f := fn(c, "L/rapidcore/env", "(*Environment).storeNonCredentialEnvironmentVariablesFromInit")
-	if f == nil {
-		return
+	for _, f := range envInitStoreFns(c) {
+		checkOptionalReservedStoresIn(c, f)
 	}
+}
+
+// envInitStoreFns: the function(s) that store the values of an init request into the environment: the helper of the
+// pinned tree, or - when it was merged into its callers or replaced - every function of the package that merges a
+// map parameter into the customer layer.
+func envInitStoreFns(c *report.Ctx) []*ssa.Function {
+	if f := c.P.Func("L/rapidcore/env", "(*Environment).storeNonCredentialEnvironmentVariablesFromInit"); f != nil && len(f.Blocks) > 0 {
+		c.Analysed("functions", 1)
+		return []*ssa.Function{f}
+	}
+	var out []*ssa.Function
+	for _, f := range repoFuncs(c) {
+		if !strings.HasPrefix(an.FuncName(f), "L/rapidcore/env.") {
+			continue
+		}
+		found := false
+		for _, call := range an.CallsTo(f, "L/rapidcore/env.mapUnion") {
+			if !storedToField(call, "L/rapidcore/env.Environment", "Customer") {
+				continue
+			}
+			for _, v := range variadicValues(call.Common().Args[0]) {
+				if _, isP := v.(*ssa.Parameter); isP {
+					found = true
+				}
+			}
+		}
+		// (the init store is the one that marks the init values as set)
+		if found && len(an.Stores(f, "L/rapidcore/env.Environment", "initEnvVarsSet")) > 0 {
+			out = append(out, f)
+		}
+	}
+	if len(out) == 0 {
+		c.Unresolved("ANCHOR", "L/rapidcore/env.(*Environment).storeNonCredentialEnvironmentVariablesFromInit", "no function of the package merges a map parameter into the customer layer")
+	}
+	c.Analysed("functions", len(out))
+	return out
+}
+
+func checkOptionalReservedStoresIn(c *report.Ctx, f *ssa.Function) {
 	facts := an.NewFacts(f)
 	n, ok := 0, true
 	var bad []string
